@@ -226,10 +226,10 @@ def C12Msg.msg : List UInt8 :=
    0, 0, 5, 0, 176,
    55, 55, 55, 55]
 
-theorem C12Msg.msg_sig : startSig.isPrefixOf C12Msg.msg = true := by decide
+theorem C12_msg_ex_msg_sig : startSig.isPrefixOf C12Msg.msg = true := by decide
 
 /-- the message decodes with the raw data reader (5 data bits): five sections, 448 = 8 * 56 bits -/
-theorem C12Msg.msg_decodes_raw :
+theorem C12_msg_ex_msg_decodes_raw :
     (decode Gen.layouts (rawCoder 5) {} C12Msg.msg).map
         (fun r => (r.sections.map (fun s => (s.index, s.nbits)), r.data, r.nbits, r.serialized))
       = .ok ([(0, 64), (1, 176), (3, 136), (4, 40), (5, 32)], some [true, false, true, true, false],
@@ -243,9 +243,9 @@ private theorem C12Msg.ok_of_map {α β : Type} {x : Except Err α} {f : α → 
   | ok a => exact ⟨a, rfl, by cases h; rfl⟩
 
 /-- the hypotheses of the byte-level theorems are met by the concrete message -/
-theorem C12Msg.msg_raw_hyp :
+theorem C12_msg_ex_msg_raw_hyp :
     ∃ r, decode Gen.layouts (rawCoder 5) {} C12Msg.msg = .ok r ∧ r.nbits = 8 * C12Msg.msg.length := by
-  obtain ⟨r, h, hf⟩ := C12Msg.ok_of_map C12Msg.msg_decodes_raw
+  obtain ⟨r, h, hf⟩ := C12Msg.ok_of_map C12_msg_ex_msg_decodes_raw
   refine ⟨r, h, ?_⟩
   have := congrArg (fun t => t.2.2.1) hf
   exact this
@@ -254,22 +254,22 @@ theorem C12Msg.msg_raw_hyp :
     `PyBufrKitError` for 0..3 octets, `BitReadError` for 4..55 -/
 example (k : Nat) (hk : k < 56) :
     decode Gen.layouts (rawCoder 5) {} (C12Msg.msg.take k) = .error (if k < 4 then .lib else .bitRead) := by
-  obtain ⟨r, h, hn⟩ := C12Msg.msg_raw_hyp
-  exact C12_msg_no_proper_prefix_decodes Gen.layouts _ (C12_msg_rawCoder_trunc 5) {} _ r C12Msg.msg_sig h hn k hk
+  obtain ⟨r, h, hn⟩ := C12_msg_ex_msg_raw_hyp
+  exact C12_msg_no_proper_prefix_decodes Gen.layouts _ (C12_msg_rawCoder_trunc 5) {} _ r C12_msg_ex_msg_sig h hn k hk
 
 /-- all 448 proper bit prefixes are a `BitReadError` -/
 example (k : Nat) (hk : k < 448) :
     decodeBits Gen.layouts (rawCoder 5) {} ((bytesToBits C12Msg.msg).take k) = .error .bitRead := by
-  obtain ⟨r, h, hn⟩ := C12Msg.msg_raw_hyp
-  exact C12_msg_no_proper_bit_prefix Gen.layouts _ (C12_msg_rawCoder_trunc 5) {} _ r C12Msg.msg_sig h hn k hk
+  obtain ⟨r, h, hn⟩ := C12_msg_ex_msg_raw_hyp
+  exact C12_msg_no_proper_bit_prefix Gen.layouts _ (C12_msg_rawCoder_trunc 5) {} _ r C12_msg_ex_msg_sig h hn k hk
 
 /-- whatever follows the message, the same message is reported -/
 example (x : List UInt8) :
     (decode Gen.layouts (rawCoder 5) {} (C12Msg.msg ++ x)).map (fun r => (r.nbits, r.serialized))
       = .ok (448, C12Msg.msg) := by
-  obtain ⟨r, h, hn⟩ := C12Msg.msg_raw_hyp
+  obtain ⟨r, h, hn⟩ := C12_msg_ex_msg_raw_hyp
   obtain ⟨r', h1, _, _, h2, h3, _, _⟩ :=
-    C12_msg_suffix_irrelevant Gen.layouts _ (C12_msg_rawCoder_trunc 5) {} _ r C12Msg.msg_sig h hn x
+    C12_msg_suffix_irrelevant Gen.layouts _ (C12_msg_rawCoder_trunc 5) {} _ r C12_msg_ex_msg_sig h hn x
   rw [h1]
   show Except.ok (r'.nbits, r'.serialized) = _
   rw [h2, h3, hn]; rfl
@@ -293,17 +293,17 @@ def C12Msg.tmpl (reg : Registry) : List Desc × Bool × Nat :=
    | some e => (match e.val with | .int v => v.toNat | _ => 0)
    | none => 0)
 
-theorem C12Msg.msg_decodes_data :
+theorem C12_msg_ex_msg_decodes_data :
     (decode Gen.layouts (C12Msg.dataCoder C12Msg.tmpl) {} C12Msg.msg).map
         (fun r => (r.data, r.nbits, r.serialized))
       = .ok (some [{ descs := [.plain C12Msg.e8], vals := [.int 176], links := [] }],
              8 * C12Msg.msg.length, C12Msg.msg) := by
   decide +kernel
 
-theorem C12Msg.msg_data_hyp :
+theorem C12_msg_ex_msg_data_hyp :
     ∃ r, decode Gen.layouts (C12Msg.dataCoder C12Msg.tmpl) {} C12Msg.msg = .ok r ∧
       r.nbits = 8 * C12Msg.msg.length := by
-  obtain ⟨r, h, hf⟩ := C12Msg.ok_of_map C12Msg.msg_decodes_data
+  obtain ⟨r, h, hf⟩ := C12Msg.ok_of_map C12_msg_ex_msg_decodes_data
   refine ⟨r, h, ?_⟩
   have := congrArg (fun t => t.2.1) hf
   exact this
@@ -311,13 +311,13 @@ theorem C12Msg.msg_data_hyp :
 example (k : Nat) (hk : k < 56) :
     decode Gen.layouts (C12Msg.dataCoder C12Msg.tmpl) {} (C12Msg.msg.take k)
       = .error (if k < 4 then .lib else .bitRead) := by
-  obtain ⟨r, h, hn⟩ := C12Msg.msg_data_hyp
-  exact C12_msg_decodeData_no_proper_prefix_decodes Gen.layouts _ {} _ r C12Msg.msg_sig h hn k hk
+  obtain ⟨r, h, hn⟩ := C12_msg_ex_msg_data_hyp
+  exact C12_msg_decodeData_no_proper_prefix_decodes Gen.layouts _ {} _ r C12_msg_ex_msg_sig h hn k hk
 
 example (x : List UInt8) : ∃ r, decode Gen.layouts (C12Msg.dataCoder C12Msg.tmpl) {} (C12Msg.msg ++ x) = .ok r ∧
     r.serialized = C12Msg.msg := by
-  obtain ⟨r, h, hn⟩ := C12Msg.msg_data_hyp
-  exact ⟨r, C12_msg_decodeData_suffix_irrelevant Gen.layouts _ {} _ r C12Msg.msg_sig h hn x⟩
+  obtain ⟨r, h, hn⟩ := C12_msg_ex_msg_data_hyp
+  exact ⟨r, C12_msg_decodeData_suffix_irrelevant Gen.layouts _ {} _ r C12_msg_ex_msg_sig h hn x⟩
 
 /-! ## `decodeAt` (no signature search) and the hypotheses of `Props/C12Stream.lean` -/
 
